@@ -26,7 +26,11 @@ pub fn check(c: &Cone, rec: &mut Rec) -> Result<(), Violation> {
   let f = |v: Violation| facts(v, c);
   let b = match run_cone(c) {
     Ok(b) => b,
-    Err(_) => return Ok(()), // totality is judged by C05
+    // totality is judged by C05, except for the outcome that C06 itself promises: r >= pi => whole sky
+    Err(p) if c.radius >= std::f64::consts::PI => {
+      return Err(f(Violation::new("all_sky", "panic", format!("cone coverage (depth {}, delta {}, centre ({:e}, {:e}), r {:e} >= pi) panicked instead of returning the 12 full base cells: {}", d, c.delta, c.lon, c.lat, c.radius, p))));
+    }
+    Err(_) => return Ok(()),
   };
   let cells = bc::model_cells("cone_wf", "cone coverage", &b).map_err(|v| f(v))?;
   let n_full = cells.iter().filter(|x| x.full).count();
